@@ -253,7 +253,9 @@ def handled(rng, tier):
         'index_copy': lambda t, u: t.index_copy(0, idx, u), 'index_copy_': None, 'select': lambda t, u: t.select(0, 1), 'select_scatter': lambda t, u: t.select_scatter(u[0], 0, 1),
         'index_put': lambda t, u: t.index_put((idx,), u), 'index_put_': None, 'copy_': None}
     fails = []; evals = 0; covered = []
-    for name in dict.fromkeys(HANDLED_FUNCTIONS):
+    # the names are those of the pinned tree's list (each with a call form above) plus whatever the current list adds: a shape-only
+    # function that DROPS OUT of the list silently returns a plain Tensor - that is the regression this clause exists for
+    for name in dict.fromkeys(list(calls) + list(HANDLED_FUNCTIONS)):
         f = calls.get(name)
         if f is None: continue
         try:
@@ -269,7 +271,6 @@ def handled(rng, tier):
     # ltype with the same item width, or a plain tensor)
     aux = {'sim3 LieTensor': pp.randn_sim3(2, 3, dtype=d), 'plain tensor': torch.randn(2, 3, 7, dtype=d)}
     for name in ('view_as', 'expand_as', 'index_copy', 'select_scatter', 'index_put'):
-        if name not in HANDLED_FUNCTIONS: continue
         for what, U in aux.items():
             try:
                 r = calls[name](X, U); ref = calls[name](X.tensor(), U.tensor() if hasattr(U, 'ltype') else U)
